@@ -3,6 +3,7 @@ package loadbalancer
 import (
 	"bufio"
 	"context"
+	"errors"
 	"fmt"
 	"net"
 	"net/http"
@@ -19,6 +20,11 @@ import (
 	"github.com/0xReLogic/Helios/internal/ratelimiter"
 	"github.com/0xReLogic/Helios/internal/utils"
 )
+
+// errBackendFailure is returned by the request handling path when a proxied request failed
+// (5xx from the backend or backend unreachable). The response has already been written and
+// the metrics recorded; the error only tells the circuit breaker that the request failed.
+var errBackendFailure = errors.New("backend request failed")
 
 // Strategy defines the interface for load balancing strategies
 type Strategy interface {
@@ -615,6 +621,10 @@ func (lb *LoadBalancer) ServeHTTP(w http.ResponseWriter, r *http.Request) {
 		err := lb.circuitBreaker.Execute(func() error {
 			return lb.handleRequest(w, r, startTime)
 		})
+		if errors.Is(err, errBackendFailure) {
+			// Already answered and recorded; the breaker has counted the failure
+			return
+		}
 		if err != nil {
 			failureCount, successCount, requestCount := lb.circuitBreaker.Counts()
 			logger.Error().
@@ -637,7 +647,7 @@ func (lb *LoadBalancer) ServeHTTP(w http.ResponseWriter, r *http.Request) {
 		}
 	} else {
 		// Execute without circuit breaker
-		if err := lb.handleRequest(w, r, startTime); err != nil {
+		if err := lb.handleRequest(w, r, startTime); err != nil && !errors.Is(err, errBackendFailure) {
 			logger.Error().Err(err).Msg("request handling failed")
 		}
 	}
@@ -693,6 +703,9 @@ func (lb *LoadBalancer) proxyRequest(backend *Backend, w http.ResponseWriter, r 
 	// Record metrics and handle passive health checks
 	lb.recordRequestMetrics(backend, rw.statusCode, startTime, r)
 
+	if rw.statusCode >= http.StatusInternalServerError {
+		return errBackendFailure
+	}
 	return nil
 }
 
